@@ -572,6 +572,14 @@ class Name:
         of reducing the message size).
         """
         name = self.name
+        if name == b".":
+            name = b""
+        # A single trailing dot only marks the name as fully qualified.
+        labels = name[:-1].split(b".") if name.endswith(b".") else name.split(b".")
+        if name and not all(0 < len(label) < 64 for label in labels):
+            raise ValueError(f"Labels must be 1 to 63 bytes long: {name!r}")
+        if sum(len(label) + 1 for label in labels) + 1 > 255:
+            raise ValueError(f"Name is longer than 255 bytes when encoded: {name!r}")
         while name:
             if compDict is not None:
                 if name in compDict:
